@@ -633,3 +633,39 @@ pub fn reward_amount() -> String {
     let got = r.state.get(&coinbase).map(|a| a.info.balance).unwrap_or(U256::ZERO);
     format!("coinbase_received={} expected={}", got, (10 - 7) * r.result.gas_used())
 }
+
+// ---------------------------------------------------------------- value-bearing CALL / EXTCALL in a static frame, values in every limb
+pub fn static_value_call(op: &str) -> String {
+    use revm::interpreter::instructions::contract;
+    use revm::interpreter::InstructionResult;
+    use revm::primitives::LatestSpec;
+    let mut out = String::new();
+    for (name, v) in [("1", U256::from(1)), ("2^64", U256::from(1) << 64), ("2^128", U256::from(1) << 128), ("2^192", U256::from(1) << 192), ("2^255", U256::from(1) << 255)] {
+        let mut host = DummyHost::new(Env::default());
+        let mut it = Interpreter::new(Contract::default(), 1_000_000, true);
+        it.is_eof = op == "extcall";
+        for _ in 0..6 {
+            it.stack.push(U256::ZERO).unwrap();
+        }
+        match op {
+            // CALL pops gas, to, value, ...: value is the third word from the top
+            "call" => {
+                it.stack.push(v).unwrap();
+                it.stack.push(U256::from(0x1234)).unwrap();
+                it.stack.push(U256::from(50_000)).unwrap();
+                contract::call::<DummyHost, LatestSpec>(&mut it, &mut host)
+            }
+            // EXTCALL pops target, input offset, input size, value
+            _ => {
+                it.stack.push(v).unwrap();
+                it.stack.push(U256::ZERO).unwrap();
+                it.stack.push(U256::ZERO).unwrap();
+                it.stack.push(U256::from(0x1234)).unwrap();
+                contract::extcall::<DummyHost, LatestSpec>(&mut it, &mut host)
+            }
+        }
+        let ok = it.instruction_result == InstructionResult::CallNotAllowedInsideStatic;
+        out += &format!("[value={} {}] ", name, if ok { "rejected".to_string() } else { format!("ACCEPTED({:?})", it.instruction_result) });
+    }
+    out
+}
